@@ -124,7 +124,7 @@ Predict ==
 Match ==
   /\ IsEvent("tok") /\ ~E.skip /\ phase = "run" /\ pend = -1
   /\ Top = [k |-> "t", v |-> E.sym]
-  /\ pos < Len(Input) /\ Input[pos + 1] = E.sym
+  /\ pos < Len(Input) /\ Input[pos + 1] = E.sym /\ cur.offs[pos + 1] = E.s
   /\ E.s = off /\ E.e >= E.s /\ off' = E.e
   /\ stack' = Pop /\ pos' = pos + 1
   /\ tstack' = Append(tstack, [k |-> "t", v |-> E.sym, s |-> E.s])
